@@ -1,0 +1,127 @@
+//go:build verif
+
+package tbtc
+
+import (
+	"context"
+	"crypto/ecdsa"
+	"math/big"
+	"sort"
+
+	"github.com/keep-network/keep-core/pkg/chain"
+	"github.com/keep-network/keep-core/pkg/net"
+	"github.com/keep-network/keep-core/pkg/protocol/group"
+	"github.com/keep-network/keep-core/pkg/tecdsa"
+)
+
+// Verification hook (build tag verif, property C12): re-exports the
+// coordination follower routine, the signing done check and the constructors
+// of their messages. No protocol logic is added.
+
+// VerifC12FollowerRoutine runs executeFollowerRoutine of a coordination
+// executor built from the given parts and returns the proposal together with
+// the fault types in the order they were recorded.
+func VerifC12FollowerRoutine(
+	ctx context.Context,
+	tbtcChain Chain,
+	walletPublicKey *ecdsa.PublicKey,
+	signingGroupOperators []chain.Address,
+	membersIndexes []group.MemberIndex,
+	broadcastChannel net.BroadcastChannel,
+	membershipValidator *group.MembershipValidator,
+	leader chain.Address,
+	coordinationBlock uint64,
+	actionsAllowed []WalletActionType,
+) (CoordinationProposal, []CoordinationFaultType, error) {
+	ce := &coordinationExecutor{
+		chain: tbtcChain,
+		coordinatedWallet: wallet{
+			publicKey:             walletPublicKey,
+			signingGroupOperators: signingGroupOperators,
+		},
+		membersIndexes:      membersIndexes,
+		broadcastChannel:    broadcastChannel,
+		membershipValidator: membershipValidator,
+	}
+	proposal, faults, err := ce.executeFollowerRoutine(
+		ctx, leader, coordinationBlock, actionsAllowed,
+	)
+	faultTypes := make([]CoordinationFaultType, 0, len(faults))
+	for _, fault := range faults {
+		faultTypes = append(faultTypes, fault.faultType)
+	}
+	return proposal, faultTypes, err
+}
+
+func VerifC12NewCoordinationMessage(
+	senderID group.MemberIndex,
+	coordinationBlock uint64,
+	walletPublicKeyHash [20]byte,
+	proposal CoordinationProposal,
+) interface{} {
+	return &coordinationMessage{
+		senderID:            senderID,
+		coordinationBlock:   coordinationBlock,
+		walletPublicKeyHash: walletPublicKeyHash,
+		proposal:            proposal,
+	}
+}
+
+// VerifC12DoneCheck wraps the unexported signing done check.
+type VerifC12DoneCheck struct{ sdc *signingDoneCheck }
+
+func VerifC12NewDoneCheck(
+	groupSize int,
+	broadcastChannel net.BroadcastChannel,
+	membershipValidator *group.MembershipValidator,
+) *VerifC12DoneCheck {
+	return &VerifC12DoneCheck{
+		newSigningDoneCheck(groupSize, broadcastChannel, membershipValidator),
+	}
+}
+
+func (v *VerifC12DoneCheck) Listen(
+	ctx context.Context,
+	message *big.Int,
+	attemptNumber uint64,
+	attemptTimeoutBlock uint64,
+	attemptMembersIndexes []group.MemberIndex,
+) {
+	v.sdc.listen(
+		ctx, message, attemptNumber, attemptTimeoutBlock, attemptMembersIndexes,
+	)
+}
+
+// DoneSigners returns the sorted indexes recorded in doneSigners.
+func (v *VerifC12DoneCheck) DoneSigners() []group.MemberIndex {
+	v.sdc.doneSignersMutex.Lock()
+	defer v.sdc.doneSignersMutex.Unlock()
+	signers := make([]group.MemberIndex, 0, len(v.sdc.doneSigners))
+	for signer := range v.sdc.doneSigners {
+		signers = append(signers, signer)
+	}
+	sort.Slice(signers, func(i, j int) bool { return signers[i] < signers[j] })
+	return signers
+}
+
+func VerifC12NewDoneMessage(
+	senderID group.MemberIndex,
+	message *big.Int,
+	attemptNumber uint64,
+	hasSignature bool,
+	endBlock uint64,
+) interface{} {
+	var signature *tecdsa.Signature
+	if hasSignature {
+		signature = &tecdsa.Signature{
+			R: big.NewInt(1), S: big.NewInt(2), RecoveryID: 0,
+		}
+	}
+	return &signingDoneMessage{
+		senderID:      senderID,
+		message:       message,
+		attemptNumber: attemptNumber,
+		signature:     signature,
+		endBlock:      endBlock,
+	}
+}
